@@ -10,9 +10,18 @@ REPAIRED code — F1).  Specification: `OMap.step` on a key-ascending associatio
 `Inv cfg.cmp s` or the untouched zero value of `SkipList`.  Tower heights enter through the
 word `r` of `Op.set/setX/setNx` (what the private random source returns); every theorem
 quantifies over all of them.
+
+Comparators that identify distinct keys (`SkipListWithCmp` with a case-insensitive or
+projection comparator): `WeakCmp cmp` are the weak-order (total-preorder) laws — `cmp a a = 0`,
+`0 < cmp a b ↔ cmp b a < 0`, `≤` transitive; `cmp a b = 0` does NOT imply `a = b`.  The
+specification is then `OMap.stepW` (`OMap.getW/keyW/setW`): a key addresses the binding whose
+STORED key is equivalent to it, a replacing `Set` keeps the stored key, `GetNode` answers the
+stored key.  The `…_weak` theorems are the general statements; for a `TotalCmp` comparator
+`OMap.stepW = OMap.step` (`c02_weak_agrees`), which is how the `TotalCmp` theorems are proved.
 -/
 import Golib.Proof.C02Refine
 import Golib.Proof.C02Cmp
+import Golib.Proof.C02Walk
 import Golib.Gen.FactsC02
 
 namespace Golib.C02
@@ -74,6 +83,104 @@ theorem c02_refines (cfg : Cfg K V) (hc : TotalCmp cfg.cmp) (hf : cfg.fixed = tr
       OMap.run cfg (toMap s) ops = (toMap s', outs) :=
   run_sim cfg hc hf ops hg
 
+/-! ### weak-order comparators (distinct keys may compare equal) -/
+
+/-- A total-order comparator is a weak-order comparator. -/
+theorem c02_total_is_weak {cmp : K → K → Int} (hc : TotalCmp cmp) : WeakCmp cmp := hc.toWeak
+
+/-- For a total-order comparator the weak-order specification step is the plain one, on every
+association list `m` (sorted or not), so `c02_inv`, `c02_refines`, … are the `TotalCmp`
+instances of the `…_weak` theorems below. -/
+theorem c02_weak_agrees (cfg : Cfg K V) (hc : TotalCmp cfg.cmp) (m : List (K × V)) (op : Op K V) :
+    OMap.stepW cfg m op = OMap.step cfg m op :=
+  OMap.stepW_eq_step cfg hc m op
+
+/-- The same for whole runs and for the single spec functions. -/
+theorem c02_weak_agrees_run (cfg : Cfg K V) (hc : TotalCmp cfg.cmp) (m : List (K × V)) :
+    (∀ ops : List (Op K V), OMap.runW cfg m ops = OMap.run cfg m ops) ∧
+    (∀ k, OMap.getW cfg.cmp m k = OMap.get m k) ∧
+    (∀ k, OMap.keyW cfg.cmp m k = if (OMap.get m k).isSome then some k else none) ∧
+    (∀ k v, OMap.setW cfg.cmp m k v = OMap.set cfg.cmp m k v) :=
+  ⟨fun ops => OMap.runW_eq_run cfg hc ops m, OMap.getW_eq_get hc m, OMap.keyW_eq hc m,
+   OMap.setW_eq_set hc m⟩
+
+/-- The invariant holds after `Init()` and is preserved by every method, for every tower height
+and every weak-order comparator; no method panics in a reachable state. -/
+theorem c02_inv_weak (cfg : Cfg K V) (hc : WeakCmp cfg.cmp) (hf : cfg.fixed = true) :
+    Inv cfg.cmp (SL.init : SL K V) ∧
+    ∀ (s : SL K V) (op : Op K V), Good cfg s → ∃ s' out, s.step cfg op = some (s', out) ∧ Good cfg s' := by
+  refine ⟨Inv.init cfg.cmp, ?_⟩
+  intro s op hg
+  obtain ⟨s', out, h1, h2, _, _⟩ := step_sim_weak cfg hc hf hg op
+  exact ⟨s', out, h1, h2⟩
+
+/-- Refinement for a weak-order comparator: for every operation sequence, from every reachable
+state and for every choice of tower heights, no call panics and the outputs are exactly those of
+the weak-order sorted-map specification (`OMap.stepW`: equivalent keys are one binding, the
+stored key survives a replacing `Set`, `GetNode`/`Head` answer stored keys) run on the
+abstraction.  The abstraction stays strictly sorted (`c02_abstraction_sorted`), so its keys are
+pairwise inequivalent. -/
+theorem c02_refines_weak (cfg : Cfg K V) (hc : WeakCmp cfg.cmp) (hf : cfg.fixed = true)
+    (s : SL K V) (hg : Good cfg s) (ops : List (Op K V)) :
+    ∃ s' outs, SL.run cfg s ops = some (s', outs) ∧ Good cfg s' ∧
+      OMap.runW cfg (toMap s) ops = (toMap s', outs) :=
+  run_sim_weak cfg hc hf ops hg
+
+/-- One call, weak-order comparator: the step-wise form of `c02_refines_weak`, with the level
+bound. -/
+theorem c02_step_weak (cfg : Cfg K V) (hc : WeakCmp cfg.cmp) (hf : cfg.fixed = true)
+    (s : SL K V) (hg : Good cfg s) (op : Op K V) :
+    ∃ s' out, s.step cfg op = some (s', out) ∧ Good cfg s' ∧
+      OMap.stepW cfg (toMap s) op = (toMap s', out) ∧ s'.level ≤ max s.level 1 + 1 :=
+  step_sim_weak cfg hc hf hg op
+
+/-- The outputs do not depend on the tower heights, for every weak-order comparator. -/
+theorem c02_height_independent_weak (cfg : Cfg K V) (hc : WeakCmp cfg.cmp) (hf : cfg.fixed = true)
+    (s : SL K V) (hg : Good cfg s) (ops ops' : List (Op K V))
+    (hsame : ops.map Op.eraseR = ops'.map Op.eraseR) :
+    ∃ s1 s2 outs, SL.run cfg s ops = some (s1, outs) ∧ SL.run cfg s ops' = some (s2, outs) ∧
+      toMap s1 = toMap s2 := by
+  obtain ⟨s1, o1, h1, _, h1'⟩ := run_sim_weak cfg hc hf ops hg
+  obtain ⟨s2, o2, h2, _, h2'⟩ := run_sim_weak cfg hc hf ops' hg
+  have : OMap.runW cfg (toMap s) ops = OMap.runW cfg (toMap s) ops' := by
+    rw [← omap_runW_eraseR cfg ops, ← omap_runW_eraseR cfg ops', hsame]
+  rw [h1', h2'] at this
+  obtain ⟨e1, e2⟩ := Prod.mk.inj this
+  subst e2
+  exact ⟨s1, s2, o1, h1, h2, e1⟩
+
+/-- A zero-value `SkipList` behaves as an empty map for every method, before and after
+`Clear()`, for every weak-order comparator. -/
+theorem c02_zero_value_weak (cfg : Cfg K V) (hc : WeakCmp cfg.cmp) (hf : cfg.fixed = true)
+    (hl : cfg.lazy = true) (op : Op K V) :
+    (∃ s' out, (SL.zero : SL K V).step cfg op = some (s', out) ∧ Good cfg s' ∧
+      OMap.stepW cfg [] op = (toMap s', out)) ∧
+    (∃ s' out, ((SL.zero : SL K V).clear cfg).step cfg op = some (s', out) ∧ Good cfg s' ∧
+      OMap.stepW cfg [] op = (toMap s', out)) := by
+  have hz : Good cfg (SL.zero : SL K V) := Or.inr ⟨hl, rfl⟩
+  have hcl : (SL.zero : SL K V).clear cfg = SL.zero := by simp [SL.clear, hf, hl, SL.zero]
+  rw [hcl]
+  obtain ⟨s', out, h1, h2, h3, _⟩ := step_sim_weak cfg hc hf hz op
+  rw [toMap_zero] at h3
+  exact ⟨⟨s', out, h1, h2, h3⟩, ⟨s', out, h1, h2, h3⟩⟩
+
+/-- What the weak-order specification says about equivalent keys, on a sorted map: a key
+equivalent to a stored key `n` reads the binding of `n`, `setW` then replaces the value and
+keeps `n`; with no equivalent stored key `setW` is the plain insertion. -/
+theorem c02_weak_spec_content {cmp : K → K → Int} (hc : WeakCmp cmp) (m : List (K × V)) (k : K) (v : V) :
+    (∀ n, OMap.keyW cmp m k = some n → cmp n k = 0 ∧ OMap.setW cmp m k v = OMap.set cmp m n v ∧
+      OMap.erase cmp m k = OMap.erase cmp m n) ∧
+    (OMap.keyW cmp m k = none → OMap.getW cmp m k = none ∧ OMap.setW cmp m k v = OMap.set cmp m k v) ∧
+    ((OMap.keyW cmp m k).isSome = (OMap.getW cmp m k).isSome) := by
+  refine ⟨fun n hn => ⟨omap_keyW_some hn, omap_setW_of_some hc hn v, omap_erase_congr hc (omap_keyW_some hn) m⟩,
+    fun hn => ⟨?_, omap_setW_of_none hn v⟩, ?_⟩
+  · unfold OMap.keyW at hn; unfold OMap.getW
+    cases hf : m.find? (fun p => cmp p.1 k == 0) with
+    | none => rfl
+    | some p => rw [hf] at hn; cases hn
+  · unfold OMap.keyW OMap.getW
+    cases m.find? (fun p => cmp p.1 k == 0) <;> rfl
+
 /-- Starting points: the zero value of `SkipList` and every `New…`/`Init()` state are
 reachable and represent the empty map. -/
 theorem c02_initial (cfg : Cfg K V) :
@@ -125,6 +232,53 @@ theorem c02_level_bounds (cfg : Cfg K V) (hc : TotalCmp cfg.cmp) (hf : cfg.fixed
   · exact h.lvl.2
   · simp [SL.zero]
 
+/-- Traversal through node handles (`node.Next()`, `node.Key()`, `node.Value()`), in every
+reachable state (`SL.walkNodes/walk/walkFrom`, `none` = panic or more than `Len()` rounds):
+(1) `for n := s.Head(); n != nil; n = n.Next()` visits every binding exactly once in ascending
+key order (nothing on the untouched zero value); (2) `for n := s.GetNode(k); …` visits nothing
+when `k` is absent and otherwise exactly the bindings with key `≥ k`; (3) every node that is
+linked at level 0 walks exactly the current bindings with key `≥` its own; (4) handle
+stability: a handle `n` obtained from `GetNode` before an arbitrary call `op` still does so
+in the state after the call, provided the call has not unlinked it. -/
+theorem c02_node_walk (cfg : Cfg K V) (hc : TotalCmp cfg.cmp) (hf : cfg.fixed = true)
+    (s : SL K V) (hg : Good cfg s) :
+    s.walk = some (toMap s) ∧
+    (∀ k, s.walkFrom cfg k =
+      some (if (OMap.get (toMap s) k).isSome then OMap.from cfg.cmp (toMap s) k else [])) ∧
+    (∀ n, n ∈ chain0 s →
+      s.walkNodes (chain0 s).length (some n) = some (OMap.from cfg.cmp (toMap s) n)) ∧
+    (∀ k n op s' out, s.getNode cfg k = some (some n) → s.step cfg op = some (s', out) →
+      n ∈ chain0 s' →
+      s'.walkNodes (chain0 s').length (some n) = some (OMap.from cfg.cmp (toMap s') n)) :=
+  ⟨headWalk_spec cfg hc hg, walkFrom_spec cfg hc hf hg, fun _ hn => walkNodes_good cfg hc hg hn,
+    fun _ _ op _ _ _ hs hn => walkNodes_after_step cfg hc hf hg op hs hn⟩
+
+/-- `c02_node_walk` for weak-order comparators (`cmp a b = 0` is an equivalence, the list stores
+one key per class, `GetNode(k)` answers the STORED equivalent node): (1) the `Head()/Next()`
+walk visits every binding exactly once in ascending order; (2) the walk from `GetNode(k)`
+visits nothing when no stored key is equivalent to `k` and otherwise exactly the bindings with
+key `≥ k` — which are the bindings from the stored equivalent key `OMap.keyW … k` on;
+(3) every linked node walks exactly the current bindings with key `≥` its own; (4) handle
+stability across an arbitrary call that has not unlinked the node.  `c02_node_walk` is the
+special case of a total order (`TotalCmp.toWeak`). -/
+theorem c02_node_walk_weak (cfg : Cfg K V) (hc : WeakCmp cfg.cmp) (hf : cfg.fixed = true)
+    (s : SL K V) (hg : Good cfg s) :
+    s.walk = some (toMap s) ∧
+    (∀ k, s.walkFrom cfg k =
+        some (if (OMap.getW cfg.cmp (toMap s) k).isSome then OMap.from cfg.cmp (toMap s) k else []) ∧
+      s.walkFrom cfg k = some (match OMap.keyW cfg.cmp (toMap s) k with
+        | some n => OMap.from cfg.cmp (toMap s) n
+        | none => [])) ∧
+    (∀ n, n ∈ chain0 s →
+      s.walkNodes (chain0 s).length (some n) = some (OMap.from cfg.cmp (toMap s) n)) ∧
+    (∀ k n op s' out, s.getNode cfg k = some (some n) → s.step cfg op = some (s', out) →
+      n ∈ chain0 s' →
+      s'.walkNodes (chain0 s').length (some n) = some (OMap.from cfg.cmp (toMap s') n)) :=
+  ⟨headWalk_spec_weak cfg hc hg,
+    fun k => ⟨walkFrom_spec_weak cfg hc hf hg k, walkFrom_keyW cfg hc hf hg k⟩,
+    fun _ hn => walkNodes_good_weak cfg hc hg hn,
+    fun _ _ op _ _ _ hs hn => walkNodes_after_step_weak cfg hc hf hg op hs hn⟩
+
 /-- The comparators the harness instantiates the theorems with (built-in order on int and on
 strings = bytewise lexicographic, modular-then-value, length-then-bytes, and the reverse of any
 total order) satisfy the total-order laws, so the theorems above apply to every driven list. -/
@@ -133,19 +287,50 @@ theorem c02_harness_comparators_total :
     (∀ {K : Type} {cmp : K → K → Int}, TotalCmp cmp → TotalCmp (fun a b => cmp b a)) :=
   ⟨cmpInt_total, cmpBytes_total, cmpMod3_total, cmpLen_total, fun h => h.reverse⟩
 
+/-- The key-identifying comparators the harness drives `SkipListWithCmp` with (ints compared by
+`k >> 1`, strings by length only, and the reverse of any weak order) satisfy the weak-order laws
+— and `cmpHalf` is not a total-order comparator, so the `…_weak` theorems are what covers it. -/
+theorem c02_harness_comparators_weak :
+    WeakCmp cmpHalf ∧ WeakCmp cmpLenOnly ∧ ¬ TotalCmp cmpHalf ∧
+    (∀ {K : Type} {cmp : K → K → Int}, WeakCmp cmp → WeakCmp (fun a b => cmp b a)) :=
+  ⟨cmpHalf_weak, cmpLenOnly_weak, cmpHalf_not_total, fun h => h.reverse⟩
+
 /-- What the hand-written model takes from the source text, re-extracted from /repo by go/ast
-on every run (`Golib/Gen/FactsC02.lean`): the level constant, the body of `randomLevel`, and
-which methods start with the `s.len == 0` guard, the `s.head.next == nil` guard (the F1 repair
-of `Clear`; `RangeWithStart` of `SkipList` carries the `len` guard, that of `SkipListWithCmp`
-does not) and `lazyInit`. -/
+on every run (`Golib/Gen/FactsC02.lean`): the level constant and the two masks, the body of
+`randomLevel`, which methods start with the `s.len == 0` guard, the `s.head.next == nil` guard
+(the F1 repair of `Clear`; `RangeWithStart` of `SkipList` carries the `len` guard, that of
+`SkipListWithCmp` does not) and `lazyInit`, and `Next()` = `n.next[0]`. -/
 theorem c02_facts :
     Golib.Gen.C02.extractorOK = true ∧ Golib.Gen.C02.maxLevel = maxLevel ∧
+    Golib.Gen.C02.zoneMask = 2 ^ maxLevel - 1 ∧ Golib.Gen.C02.levelMask = maxLevel - 1 ∧
     Golib.Gen.C02.lenGuard = ["All", "Head", "Keys", "Range", "RangeWithStart", "Values"] ∧
     Golib.Gen.C02.lenGuardCmp = ["All", "Head", "Keys", "Range", "Values"] ∧
     Golib.Gen.C02.nilGuard = ["Clear"] ∧ Golib.Gen.C02.nilGuardCmp = [] ∧
     Golib.Gen.C02.lazyInit = ["set"] ∧ Golib.Gen.C02.lazyInitCmp = [] ∧
     Golib.Gen.C02.randomLevelBody =
-      "{ k := r.Uint64() & zoneMask return ((maxLevel - bits.Len64(k)) & levelMask) + 1 }" := by
+      "{ k := r.Uint64() & zoneMask return ((maxLevel - bits.Len64(k)) & levelMask) + 1 }" ∧
+    Golib.Gen.C02.nodeNextBody = "{ return n.next[0] }" := by
+  decide
+
+/-- `skip_cmp.go` is `skip.go` with the comparator in place of `<`/`==` — checked on the source
+text on every run, not assumed: after rewriting `n := s.cmp(a, b); n > 0 / n == 0` to
+`a > b / a == b`, `s.cmp(a, b) >= 0` to `a >= b` and mapping the type names, the body of every
+search/update/read method of `SkipListWithCmp` and of every node method is IDENTICAL to that of
+the `SkipList` method of the same name; `set`, `RangeWithStart` and `Clear` are identical up to
+the first statement of the `SkipList` version (`s.lazyInit()`, the `len` guard, the `nil`
+guard — exactly what `Cfg.lazy` switches in the model); no method exists on one side only.
+(`Range` and `Init` are written differently; they are tied by the differential run only.)
+`All` of both types (identical bodies, in the first list) is the body of `SkipListWithCmp.Range`
+with `yield` for `f` — the model has one function for `Range` and `All`.
+This is why one model with the flag `Cfg.lazy` stands for both files. -/
+theorem c02_cmp_file_is_ord_file :
+    (["All", "Get", "GetNode", "Head", "Keys", "Len", "RangeWithRange", "Remove", "Set", "SetNx", "SetX",
+      "Values", "node.Key", "node.Next", "node.SetValue", "node.Value"].all
+        (· ∈ Golib.Gen.C02.cmpSameBody)) = true ∧
+    (["Clear", "RangeWithStart", "set"].all
+        (· ∈ Golib.Gen.C02.cmpSameBody ++ Golib.Gen.C02.cmpSameModuloFirst)) = true ∧
+    (Golib.Gen.C02.cmpDifferent.all (· ∈ ["Init", "Range"])) = true ∧
+    Golib.Gen.C02.cmpUnpaired = [] ∧ Golib.Gen.C02.allEqRangeCmp = true := by
   decide
 
 /-! ### non-vacuity -/
@@ -170,5 +355,48 @@ example :
 
 example : Good cfgEx (SL.zero : SL Int Int) ∧ TotalCmp cfgEx.cmp ∧ cfgEx.fixed = true :=
   ⟨Or.inr ⟨rfl, rfl⟩, cmpIntEx_total, rfl⟩
+
+/-- `SkipListWithCmp[int,int]` with the comparator `k >> 1`: 4 and 5 are the same key. -/
+def cfgHalf : Cfg Int Int := { cmp := cmpHalf, lazy := false, zeroK := 0, zeroV := 0 }
+
+/-- `Set(4,40)`, `Set(5,50)`: one binding, stored key 4 kept, value replaced; `GetNode(5)` and
+`Get(5)` answer node 4 / 50; `Set(2,20)`, `Remove(3)` removes the binding of 2. -/
+example :
+    ((SL.run cfgHalf SL.init [.set 4 40 (1 <<< 30), .set 5 50 0]).bind fun p =>
+      (p.1.getNode cfgHalf 5).bind fun n => (p.1.get cfgHalf 5).map fun g =>
+        (toMap p.1, p.1.len, n, g)) = some ([(4, 50)], 1, some 4, (50, true)) ∧
+    (OMap.runW cfgHalf [] [.set 4 40 0, .set 5 50 0]).1 = [(4, 50)] ∧
+    OMap.keyW cmpHalf [(4, 50)] 5 = some 4 ∧
+    (SL.run cfgHalf SL.init [.set 4 40 0, .set 2 20 (1 <<< 30), .setNx 5 51 0, .remove 3, .setNodeValue 5 55]).map
+      (fun p => (toMap p.1, p.1.lv.take 2)) = some ([(4, 55)], [[4], []]) := by
+  decide
+
+example : Good cfgHalf (SL.init : SL Int Int) ∧ WeakCmp cfgHalf.cmp ∧ cfgHalf.fixed = true ∧
+    ¬ TotalCmp cfgHalf.cmp :=
+  ⟨Or.inl (Inv.init _), cmpHalf_weak, rfl, cmpHalf_not_total⟩
+
+/-- `c02_node_walk` on a concrete list with towers of heights 2, 3, 1: the `Head()` walk, the walk
+from `GetNode(5)`, from the absent key 4, and the handle of node 5 after `Remove(3)` and `Set(9, …)`. -/
+example :
+    let res := SL.run cfgEx SL.zero [.set 5 50 (1 <<< 30), .set 3 30 (1 <<< 29), .set 8 80 0]
+    res.map (·.1.walk) = some (some [(3, 30), (5, 50), (8, 80)]) ∧
+    res.map (·.1.walkFrom cfgEx 5) = some (some [(5, 50), (8, 80)]) ∧
+    res.map (·.1.walkFrom cfgEx 4) = some (some []) ∧
+    (res.bind fun p => SL.run cfgEx p.1 [.remove 3, .set 9 90 (1 <<< 28)]).map
+      (fun q => q.1.walkNodes (chain0 q.1).length (some 5)) = some (some [(5, 50), (8, 80), (9, 90)]) := by
+  decide
+
+/-- `c02_node_walk_weak` with the comparator `k >> 1` (4 ~ 5, 8 ~ 9): `Set(5,50)` replaces the value
+under the stored key 4; `GetNode(5)` is node 4 and walks everything, `GetNode(8)` is node 9,
+`GetNode(7)` is nil; the handle 4 still walks after `Remove(8)` (which unlinks node 9). -/
+example :
+    let res := SL.run cfgHalf SL.init [.set 4 40 (1 <<< 30), .set 9 90 0, .set 5 50 0]
+    res.map (·.1.walk) = some (some [(4, 50), (9, 90)]) ∧
+    res.map (·.1.walkFrom cfgHalf 5) = some (some [(4, 50), (9, 90)]) ∧
+    res.map (·.1.walkFrom cfgHalf 8) = some (some [(9, 90)]) ∧
+    res.map (·.1.walkFrom cfgHalf 7) = some (some []) ∧
+    (res.bind fun p => SL.run cfgHalf p.1 [.remove 8, .set 6 60 (1 <<< 29)]).map
+      (fun q => q.1.walkNodes (chain0 q.1).length (some 4)) = some (some [(4, 50), (6, 60)]) := by
+  decide
 
 end Golib.C02
